@@ -1208,6 +1208,25 @@ impl Visitor<Diagnostic> for LibraryRenderer {
         Ok(())
     }
 
+    // 3.3
+    fn visit_stmt_kind(&mut self, node: &dsl::textual::StmtKind) -> Result<Self::Value, Diagnostic> {
+        match node {
+            dsl::textual::StmtKind::Return => {
+                self.write_ws("RETURN");
+                self.write_ws(";");
+                self.newline();
+                Ok(())
+            }
+            dsl::textual::StmtKind::Exit => {
+                self.write_ws("EXIT");
+                self.write_ws(";");
+                self.newline();
+                Ok(())
+            }
+            _ => node.recurse_visit(self),
+        }
+    }
+
     // 3.2.3
     fn visit_fb_call(&mut self, node: &dsl::textual::FbCall) -> Result<Self::Value, Diagnostic> {
         self.visit_id(&node.var_name)?;
